@@ -45,4 +45,73 @@ def tal_opcodes(info):
     return out
 
 
-SECTIONS = [class_attrs, tal_opcodes]
+
+def _c19_rows(info):
+    import hashlib, json, subprocess, glob
+    h = hashlib.sha256()
+    files = sorted(glob.glob(os.path.join(REPO, "pygopherd", "*.py"))) + [os.path.join(REPO, "conf", "pygopherd.conf"),
+             os.path.join(os.path.dirname(os.path.abspath(__file__)), "c19_trace.py")]
+    for f in files:
+        h.update(f.encode() + b"\0" + open(f, "rb").read())
+    key = h.hexdigest()
+    cache = os.path.join(os.path.dirname(os.path.dirname(os.path.abspath(__file__))), "lean", ".audit", "c19cache.json")
+    try:
+        d = json.load(open(cache))
+        if d.get("key") == key:
+            info["initTable"] = "executed (cached for identical sources)"
+            return d["rows"]
+    except Exception:  # noqa
+        pass
+    p = subprocess.run([sys.executable, "-B", os.path.join(os.path.dirname(os.path.abspath(__file__)), "c19_trace.py"), REPO],
+                       capture_output=True, text=True, timeout=600)
+    if p.returncode != 0:
+        raise RuntimeError("c19_trace failed: " + p.stderr[-400:])
+    rows = json.loads(p.stdout)
+    info["initTable"] = "executed"
+    try:
+        os.makedirs(os.path.dirname(cache), exist_ok=True)
+        json.dump({"key": key, "rows": rows}, open(cache, "w"))
+    except Exception:  # noqa
+        pass
+    return rows
+
+
+def _c19_call(t, root):
+    n = t[0]
+    a = t[1:]
+    if n in ("loadKeys", "bind", "getpwnam", "getgrnam"):
+        return "." + n
+    if n == "chroot":
+        return ".chroot" if a[:1] == [root] else ".other"
+    if n == "chdir":
+        return ".chdirRoot" if a == ["/"] else ".other"
+    if n == "setgroups":
+        return ".setgroups" if a == ["()"] or a == ["[]"] else ".other"
+    if n == "setregid":
+        return ".setregid" if a == ["4321", "4321"] else ".other"
+    if n == "setreuid":
+        return ".setreuid" if a == ["1234", "1234"] else ".other"
+    return ".other"
+
+
+def c19_table(info):
+    rows = _c19_rows(info)
+    out = ["def initTable : List Pyg.Init.Row := ["]
+    items = []
+    b = lambda x: "true" if x else "false"  # noqa
+    for r in rows:
+        root = None
+        for t in r["trace"]:
+            if t[0] == "chroot" and len(t) > 1:
+                root = t[1]
+        # the configured root is the one the trace script wrote: <tmp>/root
+        calls = ", ".join(_c19_call(t, root if (root or "").endswith("/root") else None) for t in r["trace"])
+        fault = "none" if r["fault"] is None else f"some {r['fault']}"
+        items.append(f"  {{ cfg := {{ tls := {b(r['tls'])}, chroot := {b(r['chroot'])}, setuid := {b(r['setuid'])}, setgid := {b(r['setgid'])} }}, "
+                     f"fault := {fault}, trace := [{calls}], raised := {b(r['raised'] is not None)}, rootSlash := {b(r['root_after'] == '/')} }}")
+    out.append(",\n".join(items))
+    out.append("]")
+    return out
+
+
+SECTIONS = [class_attrs, tal_opcodes, c19_table]
